@@ -295,7 +295,7 @@ class DynGraph(nx.Graph):
         if nbunch is None:
             nodes_nbrs = self._adj.items()
         else:
-            nodes_nbrs = ((n, self._adj[n]) for n in self.nbunch_iter(nbunch))
+            nodes_nbrs = ((n, self._adj[n]) for n in dict.fromkeys(self.nbunch_iter(nbunch)))
 
         for n, nbrs in nodes_nbrs:
             for nbr in nbrs:
